@@ -461,7 +461,69 @@ def shard_payload_empty(acc, shard, nshards, params):
     drive(acc, "payload_empty", case_payload_empty, cases, shard, nshards, family="Payload.isEmpty")
 
 
-CASES = {"pair": case_pair, "triple": case_triple, "single": case_single, "payload_empty": case_payload_empty}
+def case_edited(case):
+    """A tensor whose tree was completed after construction through public fiber
+    mutators that do not go through the tensor (append / position assignment /
+    extend of a sub-fiber): counting, emptiness and equality still depend on the
+    content only."""
+    spec, how, dflt = case
+    depth = 2
+    out = []
+    feats = spec_feats(spec, depth) | {"edited:" + how}
+    stored_top = [i for i, x in enumerate(spec) if x is not None]
+    last = stored_top[-1]
+    partial = tuple(x if i != last else None for i, x in enumerate(spec))
+    exp = ref_content(spec, depth, dflt)
+    try:
+        shape = [len(spec), len(spec[last])]
+        t = Tensor.fromFiber(RANK_IDS[:depth], mk(partial, depth, dflt), shape=shape, default=dflt)
+        root = t.getRoot()
+        sub = mk(spec[last], 1, dflt)
+        if how == "append":
+            root.append(last, sub)
+        elif how == "extend":
+            root.extend(Fiber([last], [sub]))
+        else:   # replace: append an empty sub-fiber, then assign the real one by position
+            root.append(last, Fiber([], [], default=dflt))
+            root[len(root.coords) - 1] = sub
+        fresh = Tensor.fromFiber(RANK_IDS[:depth], mk(spec, depth, dflt), shape=shape, default=dflt)
+        n = len(exp)
+        for fam, got in (("Tensor.countValues", t.countValues()), ("Fiber.countValues", root.countValues())):
+            if got != n:
+                out.append((fam, "value", feats, n, got))
+        if root.isEmpty() != (n == 0):
+            out.append(("isEmpty", "value", feats, n == 0, root.isEmpty()))
+        for fam, a, b in (("tensor==", t, fresh), ("tensor==", fresh, t), ("fiber==", root, fresh.getRoot())):
+            if not (a == b):
+                out.append((fam, "eq-false-for-equal-content", feats, True, False))
+        if fresh.countValues() != t.countValues():
+            out.append(("Tensor.countValues", "equal-tensors-count-differently", feats, fresh.countValues(), t.countValues()))
+        if n >= 2:
+            core.CUR.nt("edited")
+    except Exception as ex:
+        _exc(out, "edited", feats, ex)
+    return out
+
+
+def shard_edited(acc, shard, nshards, params):
+    alpha, dflt = params
+
+    def gen():
+        for spec in universe((2, 2), alpha)[0]:
+            if not any(x is not None for x in spec):
+                continue
+            for how in ("append", "extend", "replace"):
+                if how == "extend":
+                    last = [i for i, x in enumerate(spec) if x is not None][-1]
+                    # extend() documents that an empty fiber is a no-op
+                    if not ref_content((spec[last],), 2, dflt):
+                        continue
+                yield (spec, how, dflt)
+    drive(acc, "edited", case_edited, gen(), shard, nshards, family="edited-after-construction[T2(2,2,%s),default=%d]" % (alpha, dflt))
+
+
+CASES = {"pair": case_pair, "triple": case_triple, "single": case_single, "payload_empty": case_payload_empty,
+         "edited": case_edited}
 
 A12 = "-d12"     # absent / explicit default / 1 / 2
 A1 = "-d1"
@@ -504,6 +566,9 @@ def run(ctx):
         return not only or any(name.startswith(p) for p in only)
     if want("payload"):
         ctx.shards(shard_payload_empty, None, nshards=1, serial=True)
+    if not getattr(ctx, "only", None) or "edited" in ctx.only:
+        ctx.shards(shard_edited, (A12, 0))
+        ctx.shards(shard_edited, (A7, 7))
     for d, a, v, df in singles:
         if want("single"):
             ctx.shards(shard_single, (d, a, v, df))
